@@ -60,7 +60,7 @@ LeafArgs(kw) ==
     [] kw = "title" -> {"T"}
 
 PropNames == {"a", "b", "class"}
-PatNames  == {"^a"} \cup (IF Rich THEN {"b$"} ELSE {})
+PatNames  == {"^a"} \cup (IF Rich THEN {"b$", "^c"} ELSE {})
 DepNames  == {"a", "b"}
 
 InitSubs == {Empty, TrueS, FalseS}
